@@ -13,7 +13,7 @@ COQ_FILES = ["Lib/SortSearch.v", "Reanalysis/Patch.v", "Reanalysis/Cases.v", "Re
 THEOREMS = ["diff_apply_roundtrip", "diff_apply_roundtrip_npm", "diff_apply_roundtrip_maven", "diff_ignores_removed_refuted",
             "fixed_introduced_algebra", "reanalysis_matches_report", "no_patch_no_change", "applied_fix_not_unactionable",
             "reported_fix_listed_and_actionable", "choose_at_most_max", "choose_no_introduce", "choose_from_candidates",
-            "choose_pairwise_compatible"]
+            "choose_pairwise_compatible", "up_iff_path", "match_depth_iff", "match_severity_iff", "match_vuln_characterised"]
 CORR = ("remediation.ConstructPatches / ResolveGraphVulns+MatchVuln / guidedremediation.choosePatches / computeVulnsResult / "
         "FixVulns + fresh analysis (Go) vs Reanalysis.Patch (Coq, vm_compute)")
 
@@ -24,12 +24,13 @@ KINDS = [
     ("vulns_result", "vcases", "vcase", "vcase_model_ok", "vcase_spec_ok"),
     ("filter", "fcases", "fcase", "fcase_model_ok", "fcase_spec_ok"),
     ("tworun", "tcases", "tcase", "tcase_model_ok", "tcase_spec_ok"),
+    ("graph", "gcases", "gcase", "gcase_model_ok", "gcase_spec_ok"),
 ]
 
 SIZES = {
-    "quick": {"tworun": 700, "explicit": 200, "odd": 40, "construct": 500, "wild": 300, "choose": 500, "vresult": 250,
+    "quick": {"tworun": 700, "explicit": 200, "odd": 40, "pinned": 160, "construct": 500, "wild": 300, "choose": 500, "vresult": 250,
               "match": 250},
-    "thorough": {"tworun": 14000, "explicit": 3500, "odd": 500, "construct": 10000, "wild": 5000, "choose": 10000,
+    "thorough": {"tworun": 14000, "explicit": 3500, "odd": 500, "pinned": 2500, "construct": 10000, "wild": 5000, "choose": 10000,
                  "vresult": 3000, "match": 3000},
 }
 PER = 100
@@ -51,7 +52,8 @@ META = {
     "level_note": "Trusted: Coq kernel + vm_compute; Go harness harness/cmd/reanalysis (string ranks, type ranks via dep.Type.Compare); "
                   "hook guidedremediation/verif_export_c12.go. Premises of the pipeline theorem (validated on every two-run case by "
                   "the oracle, not proved): manifest writer/reader exactness (property C13), deps.dev resolve + matcher are functions "
-                  "of the requirement map. Severity and depth filters, Patch.Compare ordering and the strategies' search are oracles.",
+                  "of the requirement map. CVSS parsing, Patch.Compare ordering and the strategies' search are oracles; the depth filter and "
+                  "the severity threshold comparison are modelled (match_vuln_characterised).",
     "design_ref": "DESIGN.md section 5 C12",
 }
 CORPUS = os.path.join(vlib.HARNESS, "cmd", "reanalysis", "corpus")
@@ -63,7 +65,7 @@ def describe(c):
 
 def harness_args(ctx, tier):
     s = SIZES[tier]
-    return ["-seed", str(ctx.seed), "-tworun", str(s["tworun"]), "-explicit", str(s["explicit"]), "-odd", str(s["odd"]),
+    return ["-seed", str(ctx.seed), "-tworun", str(s["tworun"]), "-explicit", str(s["explicit"]), "-odd", str(s["odd"]), "-pinned", str(s["pinned"]),
             "-construct", str(s["construct"]), "-wild", str(s["wild"]), "-choose", str(s["choose"]),
             "-vresult", str(s["vresult"]), "-match", str(s["match"]), "-per", str(PER)]
 
@@ -137,8 +139,10 @@ def run(ctx):
         "hooks /repo/guidedremediation/verif_export_c12.go (VerifC12*) and verif_export.go (VerifIsAffected)",
         "premises of reanalysis_matches_report (checked by the two-run oracle on every case, not proved): writer/reader exactness "
         "(C13), deps.dev npm/Maven resolvers and the matcher are functions of the requirement map, FindVulnerabilities lists an ID once",
-        "oracles (modelled as recorded answers): severity and depth filters of MatchVuln, DevOnly, result.Patch.Compare ordering of "
-        "candidates, the override/relax search itself (C11)",
+        "oracles (modelled as recorded answers): CVSS score parsing (severity.CalculateScore) and the choice of the applicable "
+        "affected[] entry (IsAffected, C18) inside matchSeverity, DevOnly, result.Patch.Compare ordering of candidates, the "
+        "override/relax search itself (C11). The depth filter (ComputeSubgraphs distances + matchDepth) and the severity threshold "
+        "comparison are modelled and tied by the graph stream.",
     ]
     binp, out = ctx.harness_build("reanalysis")
     if binp is None:
@@ -216,6 +220,12 @@ def run(ctx):
         for k, on in (("ignore", bool(o["ignore"])), ("explicit", bool(o["explicit"])), ("no_dev_deps", not o["dev_deps"]),
                       ("min_severity", o["min_severity"] > 0), ("max_depth", o["max_depth"] > 0),
                       ("no_introduce", o["no_introduce"]), ("max_upgrades_1", o["max_upgrades"] == 1),
+                      ("upgrade_config", bool(o.get("upgrade"))),
+                      ("upgrade_none_on_vulnerable_pkg", any(l == "none" and any(v["pkg"] == p for v in u["vulns"])
+                                                             for p, l in (o.get("upgrade") or {}).items())),
+                      ("applied_patch_fixes_vuln_in_none_pkg", any((o.get("upgrade") or {}).get(q[0]) == "none"
+                                                                   for pt in (c.get("res_patches") or [])
+                                                                   for v in (pt.get("fixed") or []) for q in v["packages"])),
                       ("maven_management", o["maven_management"]), ("introduces", any(p.get("introduced") for p in (c.get("res_patches") or []))),
                       ("bytes_changed", c.get("bytes_changed", False))):
             if on:
@@ -226,6 +236,23 @@ def run(ctx):
             seen.add(vlib.sha([u["sys"], u["schema"], u["manifest"], u["vulns"], o]))
     dist["two_run_cases_with_an_error_return"] = errs
     dist["synthetic"] = {k[0]: len(by_kind.get(k[0], [])) for k in KINDS[:4]}
+    gs = by_kind.get("graph", [])
+    fl = {"analyses": len(gs), "vulnerabilities": 0, "depth_filter_on": 0, "rejected_by_depth": 0, "severity_filter_on": 0,
+          "rejected_by_severity": 0, "fallback_to_affected_severity": 0, "unparsable_score": 0, "several_subgraphs": 0,
+          "root_distance": {}}
+    for c in gs:
+        fl["depth_filter_on"] += c["max_depth"] > 0
+        fl["severity_filter_on"] += c["min_severity"] > 0
+        for v in c["all"] or []:
+            fl["vulnerabilities"] += 1
+            fl["rejected_by_depth"] += not v["depth_ok"]
+            fl["rejected_by_severity"] += not v["sev_ok"]
+            fl["fallback_to_affected_severity"] += (not v["top_scores"]) and bool(v["aff_scores"])
+            fl["unparsable_score"] += any(x is None for x in (v["top_scores"] or []) + (v["aff_scores"] or []))
+            fl["several_subgraphs"] += len(v["nodes"] or []) > 1
+            for d in v["root_dist"] or []:
+                bump(fl["root_distance"], d)
+    dist["filters"] = fl
     dist["construct_outside_roundtrip_domain"] = len(outside_rt)
     dist["two_run_cases_with_escaped_names"] = sum(1 for c in two if not c["universe"]["name_safe"])
 
